@@ -51,6 +51,13 @@ CHECKS = {
              "required field is removed once (must raise ValidationError); every schema default is read back from an instance created without the field and observed "
              "at the reference resolver through a carrier query.",
         note=GEN_NOTE, design="4/C06"),
+    "C07": dict(
+        category="exploration",
+        technique="runtime monitoring: call log of instrumented parse/serialize functions shipped via files_to_include; exactly-once multiset oracle over unique-token occurrences in responses and arguments; wire/attribute value comparison",
+        text="Custom scalars of seeded schemas are configured in six variants (custom class with parse+serialize, str+parse, str+serialize, pydantic-native datetime via "
+             "dotted path, deprecated import key, unconfigured). The call log of the instrumented functions must equal, as a multiset, the non-null occurrences of the "
+             "scalar in the response (parse) and in the caller's arguments (serialize); attributes must be parse(raw) of their own token and wire values serialize(value).",
+        note=GEN_NOTE, design="4/C07"),
     "C11": dict(
         category="exploration",
         technique="runtime monitoring: transport-boundary capture + reference multipart/JSON oracle; schedule stress (asyncio.gather with seeded awaits, 8 threads at 1us switch interval, sys.monitoring LINE yield injection) with per-call unique ids",
